@@ -1,12 +1,23 @@
 #!/bin/bash
-# selftest/run_mutant.sh <patch> <ID> [tier]   -- apply a patch to /repo, run one check, always revert.
+# selftest/run_mutant.sh <patch> <ID> [tier]   -- run one check against a changed flowjax, always clean up.
 # Development aid (binding demonstration, DESIGN section 10); not a registered check.
+#   default            the patch is applied to a scratch worktree of /repo under /dev/shm which is put in front of the
+#                      editable install with PYTHONPATH (so /repo is untouched and background runs are not disturbed)
+#   MUT_MODE=repo      the patch is applied to /repo itself (git apply ... git checkout -- .), as the task brief describes
 set -u
 PATCH="$(realpath "$1")"; ID="$2"; TIER="${3:-quick}"
-cd /repo || exit 2
-if ! git diff --quiet; then echo "/repo has uncommitted changes; refusing" >&2; exit 2; fi
 EV="/verif/evidence/$ID.json"; BK="$(mktemp)"; [ -f "$EV" ] && cp "$EV" "$BK"
-trap 'git -C /repo checkout -- . >/dev/null 2>&1; [ -s "$BK" ] && cp "$BK" "$EV"; rm -f "$BK"' EXIT
-git apply "$PATCH" || { echo "patch does not apply" >&2; exit 2; }
+if [ "${MUT_MODE:-worktree}" = "repo" ]; then
+  cd /repo || exit 2
+  if ! git diff --quiet; then echo "/repo has uncommitted changes; refusing" >&2; exit 2; fi
+  trap 'git -C /repo checkout -- . >/dev/null 2>&1; [ -s "$BK" ] && cp "$BK" "$EV"; rm -f "$BK"' EXIT
+  git apply "$PATCH" || { echo "patch does not apply" >&2; exit 2; }
+else
+  WT="/dev/shm/mutwt_$$"
+  trap 'git -C /repo worktree remove --force "$WT" >/dev/null 2>&1; [ -s "$BK" ] && cp "$BK" "$EV"; rm -f "$BK"' EXIT
+  git -C /repo worktree add -q --detach "$WT" HEAD || exit 2
+  git -C "$WT" apply "$PATCH" || { echo "patch does not apply" >&2; exit 2; }
+  export PYTHONPATH="$WT"
+fi
 cd /verif && ./check "$ID" --tier "$TIER" 2>&1 | grep -E "^(VIOLATION|KNOWN-FINDING|NOTE|\[C|MACHINERY|  detail)" | cut -c1-400 | head -${LINES_MAX:-12}
 echo "exit=${PIPESTATUS[0]}"
